@@ -1,3 +1,4 @@
+pub mod fuzz;
 pub mod gen;
 pub mod harness;
 pub mod run;
